@@ -69,25 +69,26 @@ Proof.
 Qed.
 
 Lemma labels_cycles_ok t n rows lab : labels_cycles t n rows = Ok lab ->
-  thr_valid t = true /\ rows <> [] /\ (0 <= n)%Z /\
+  thr_valid t = true /\ (rows <> [] -> (0 <= n)%Z) /\
   lab = minrun (Z.to_nat n) (force_ends (map (qualifies t) rows)).
 Proof.
   unfold labels_cycles. destruct (thr_valid t); cbn [negb]; [|discriminate].
-  destruct rows as [|r rs]; [discriminate|].
+  destruct rows as [|r rs].
+  { intros [= <-]. repeat split; auto. congruence. }
   destruct (n <? 0)%Z eqn:E; [discriminate|]. intros [= <-].
-  apply Z.ltb_ge in E. repeat split; auto. discriminate.
+  apply Z.ltb_ge in E. repeat split; auto.
 Qed.
 
 Theorem labels_cycles_spec t n rows lab i : labels_cycles t n rows = Ok lab ->
   (nth i lab false = true <-> interior_window (map (qualifies t) rows) (Z.to_nat n) i).
 Proof.
-  intros H. apply labels_cycles_ok in H as (_ & _ & _ & ->).
+  intros H. apply labels_cycles_ok in H as (_ & _ & ->).
   rewrite minrun_spec. apply window_force_ends.
 Qed.
 
 Theorem labels_cycles_length t n rows lab : labels_cycles t n rows = Ok lab -> length lab = length rows.
 Proof.
-  intros H. apply labels_cycles_ok in H as (_ & _ & _ & ->).
+  intros H. apply labels_cycles_ok in H as (_ & _ & ->).
   now rewrite minrun_length, force_ends_length, map_length.
 Qed.
 
@@ -109,20 +110,23 @@ Proof.
   now apply Hall.
 Qed.
 
-(* errors: exactly the documented rejections *)
+(* errors: exactly the documented rejections (an empty table is labelled by an empty column) *)
 Theorem labels_cycles_err t n rows :
-  (exists e, labels_cycles t n rows = Err e) <-> (thr_valid t = false \/ rows = [] \/ (n < 0)%Z).
+  (exists e, labels_cycles t n rows = Err e) <-> (thr_valid t = false \/ (rows <> [] /\ (n < 0)%Z)).
 Proof.
   unfold labels_cycles. destruct (thr_valid t); cbn [negb].
   2:{ split; eauto. }
   destruct rows as [|r rs].
-  { split; eauto. }
+  { split; [intros [e He]; discriminate|]. intros [H|[H _]]; [discriminate|congruence]. }
   destruct (n <? 0)%Z eqn:E.
-  - apply Z.ltb_lt in E. split; eauto.
+  - apply Z.ltb_lt in E. split; eauto. intros _. right. split; [discriminate|exact E].
   - apply Z.ltb_ge in E. split.
     + intros [e He]. discriminate.
-    + intros [H|[H|H]]; try discriminate; lia.
+    + intros [H|[_ H]]; try discriminate; lia.
 Qed.
+
+Theorem labels_cycles_empty t n : thr_valid t = true -> labels_cycles t n [] = Ok [].
+Proof. intros H. unfold labels_cycles. now rewrite H. Qed.
 
 (* monotonicity, given that raising a threshold only removes qualifying cycles *)
 Theorem labels_cycles_mono_gen t t' n n' rows lab lab' :
@@ -133,7 +137,6 @@ Proof.
   intros Hq Hn H H' i E.
   apply (labels_cycles_spec _ _ _ _ _ H).
   apply (labels_cycles_spec _ _ _ _ _ H') in E as (a & b & Ha & Hi & Hb & Hw & Hall).
-  apply labels_cycles_ok in H as (_ & _ & Hn0 & _).
   rewrite map_length in Hb.
   exists a, b. rewrite map_length. repeat split; try lia.
   intros j Hj. specialize (Hall j Hj).
